@@ -1198,6 +1198,16 @@ VARIANTS += [
 ]
 VARIANTS += [dict(v, prop="C11", name=v["name"] + "@C11") for v in VARIANTS if v["name"] in ("http-shard-transport-counts-itself",)]
 
+VARIANTS += [
+    dict(prop="C14", name="ring-window-bindings-and-is-multiple-of", benign=True,
+         edits=[dict(file='ipa-core/src/helpers/buffers/unordered_receiver.rs', find='        if i > self.next + self.wakers.len() {\n', replace='        let window = self.wakers.len();\n        let ahead = i - self.next;\n        if ahead > window {\n'), dict(file='ipa-core/src/helpers/buffers/unordered_receiver.rs', find='            let index = i % self.wakers.len();\n            if let Some(old) = self.wakers[index].as_mut() {', replace='            let slot = &mut self.wakers[i % window];\n            if let Some(old) = slot.as_mut() {'), dict(file='ipa-core/src/helpers/buffers/unordered_receiver.rs', find='                self.wakers[index] = Some(waker.clone());', replace='                *slot = Some(waker.clone());'), dict(file='ipa-core/src/helpers/buffers/unordered_receiver.rs', find='        if self.next % (self.wakers.len() / 2) == 0 {', replace='        let half = self.wakers.len() / 2;\n        if self.next.is_multiple_of(half) {')]),
+    dict(prop="C16", name="pop-loop-with-matches", benign=True,
+         edits=[dict(file='ipa-core/src/protocol/context/batcher.rs', find='                while let Some(None) = self.batches.front() {\n                    self.batches.pop_front();\n                    self.first_batch += 1;\n                }', replace='                while matches!(self.batches.front(), Some(None)) {\n                    let _ = self.batches.pop_front();\n                    self.first_batch += 1;\n                }')]),
+    dict(prop="C17", name="batch-count-selected-by-branch", benign=True,
+         edits=[dict(file='ipa-core/src/helpers/transport/stream/input.rs', find='        let count = max(1, buf.contiguous_len() / T::Size::USIZE);\n        buf.read_multi(count)', replace='        let available = buf.contiguous_len() / T::Size::USIZE;\n        buf.read_multi(if available == 0 { 1 } else { available })')]),
+]
+VARIANTS += [dict(v, prop="C13", name=v["name"] + "@C13") for v in VARIANTS if v["name"] == "ring-window-bindings-and-is-multiple-of"]
+
 # rules shared between properties: the same edit must be reported under the other property too
 VARIANTS += [dict(v, prop="C05", name=v["name"] + "@C05") for v in VARIANTS
              if v["name"] in ("h1-shuffle-empty-shard-leaves", "sharded-shuffle-empty-shard-leaves", "reshard-closes-channels-on-input-error", "reshard-closes-before-matching-none")]
